@@ -67,7 +67,7 @@ func genC09(g *rand.Rand, tier string) any {
 	}
 	p.Pos = g.IntN(4*n + 3)
 	p.WriteFails = g.IntN(2) == 0
-	p.ErrKind = g.IntN(6)
+	p.ErrKind = g.IntN(NumInjectedErrs)
 	return p
 }
 
@@ -710,7 +710,7 @@ type C14Params struct {
 	N        int       `json:"n"`        // RPCs in the history
 	Inflight int       `json:"inflight"` // concurrently
 	GenSeed  uint64    `json:"genseed"`
-	Outcomes []int     `json:"outcomes"` // weights: ok, error, cancel, deadline, early-return (server reset), failed open, context finished before the call
+	Outcomes []int     `json:"outcomes"` // weights: ok, error, cancel, deadline, early-return (server reset), failed open, context finished before the call, timeout already expired on arrival
 	Side     SideOpts  `json:"side"`     // interceptors / stats handlers (family c20.outcomes)
 }
 
@@ -724,7 +724,7 @@ func genC14(g *rand.Rand, tier string) any {
 	}
 	p.Inflight = 1 + g.IntN(32)
 	p.GenSeed = g.Uint64()
-	p.Outcomes = []int{1 + g.IntN(4), g.IntN(3), g.IntN(4), g.IntN(3), g.IntN(3), g.IntN(3), g.IntN(3)}
+	p.Outcomes = []int{1 + g.IntN(4), g.IntN(3), g.IntN(4), g.IntN(3), g.IntN(3), g.IntN(3), g.IntN(3), g.IntN(2)}
 	return p
 }
 
@@ -756,7 +756,7 @@ func execC14(e *Env, pp any) {
 		return nil
 	}
 	tot := 0
-	for len(p.Outcomes) < 7 {
+	for len(p.Outcomes) < 8 {
 		p.Outcomes = append(p.Outcomes, 0)
 	}
 	for _, w := range p.Outcomes {
@@ -853,6 +853,9 @@ func execC14(e *Env, pp any) {
 				c.CProg = append(c.CProg, Op{K: 'R'})
 			}
 			e.Note("outcome.ctx-done-before-call")
+		case 7: // the request arrives with a timeout that has already run out: the RPC still exists on the server
+			c.ReqMD = map[string][]string{"grpc-timeout": {[]string{"0m", "0n", "0S", "1n"}[g.IntN(4)]}}
+			e.Note("outcome.expired-on-arrival")
 		default:
 			e.Note("outcome.ok")
 		}
@@ -967,6 +970,10 @@ func execC14(e *Env, pp any) {
 				if r.InvokeErr == nil && r.HInvoked == 1 && c.HStatus == nil && !bytes.Equal(r.InvokeResp, c.Resp) {
 					cc, d, _, ok := payloadTag(r.InvokeResp)
 					e.Violate("C05", "cross-delivery", "unary", "call %d of a history returned a reply that is not its own (%d bytes, tag call=%d dir=%c ok=%v)", c.ID, len(r.InvokeResp), cc, d, ok)
+					if c.Timeout == 0 && c.PreDone == 0 {
+						// an ordinary call (never cancelled, no deadline): C01's pairing holds for it whatever its neighbours did
+						e.Violate("C01", "reply-mismatch", "unary.history", "call %d, an ordinary unary call in a history with cancelled and expired neighbours, returned a reply that is not its own (tag call=%d)", c.ID, cc)
+					}
 				}
 				if r.InvokeErr == nil && c.HStatus != nil && r.HInvoked == 1 {
 					e.Violate("C05", "cross-delivery", "unary", "call %d of a history whose handler failed returned success", c.ID)
@@ -998,9 +1005,7 @@ func execC14(e *Env, pp any) {
 		e.Hist = e.Hist[:0]
 		histMu.Unlock()
 		for _, l := range e.links {
-			l.mu.Lock()
-			l.Tap = l.Tap[:0]
-			l.mu.Unlock()
+			l.ClearTap()
 		}
 	}
 	e.Notes["rpcs"] += done
@@ -1022,7 +1027,7 @@ func init() {
 		if p.Side.CliStats+p.Side.SrvStats == 0 {
 			p.Side.CliStats, p.Side.SrvStats = 1, 1
 		}
-		p.Outcomes = []int{2, 1 + g.IntN(2), 1 + g.IntN(3), 1 + g.IntN(2), g.IntN(2), 1 + g.IntN(3)}
+		p.Outcomes = []int{2, 1 + g.IntN(2), 1 + g.IntN(3), 1 + g.IntN(2), g.IntN(2), 1 + g.IntN(3), g.IntN(2), 1 + g.IntN(2)}
 		return p
 	}, Exec: execC14, Faulty: true, FaultKinds: []string{"ctx.cancel", "ctx.deadline", "open.writeFail", "handler.abandon"}})
 }
@@ -1046,7 +1051,7 @@ func genC15Break(g *rand.Rand, tier string) any {
 		p.Calls = append(p.Calls, c)
 	}
 	p.Pos = g.IntN(3)
-	p.ErrKind = g.IntN(6)
+	p.ErrKind = g.IntN(NumInjectedErrs)
 	return p
 }
 
